@@ -130,7 +130,7 @@ pub fn op_strategy(p: &Profile) -> impl Strategy<Value = Op> {
     add(p.roundtrip, (prop_oneof![3 => Just(0u8), 1 => Just(1u8), 2 => Just(2u8), 1 => Just(3u8)], any::<u16>()).prop_map(|(what, sel)| Op::RoundTrip { what, sel }).boxed());
     add(p.recaps, (any::<u16>(), any::<u16>()).prop_map(|(enc, mpk)| Op::Recaps { enc, mpk }).boxed());
     add(p.stale, (0u8..6, any::<u16>(), any::<bool>()).prop_map(|(back, usk, keep)| Op::ProbeStale { back, usk, keep }).boxed());
-    add(p.forged, (any::<u16>(), 0u8..7, any::<bool>()).prop_map(|(usk, kind, keep)| Op::ProbeForged { usk, kind, keep }).boxed());
+    add(p.forged, (any::<u16>(), 0u8..9, any::<bool>()).prop_map(|(usk, kind, keep)| Op::ProbeForged { usk, kind, keep }).boxed());
     proptest::strategy::Union::new_weighted(alts)
 }
 
@@ -253,7 +253,7 @@ fn dec_op(s: &mut ByteSource, p: &Profile) -> Option<Op> {
         15 => Op::RoundTrip { what: [0u8, 0, 0, 1, 2, 2, 3][s.below(7)], sel: s.u16() },
         16 => Op::Recaps { enc: s.u16(), mpk: s.u16() },
         17 => Op::ProbeStale { back: s.below(6) as u8, usk: s.u16(), keep: s.bool() },
-        _ => Op::ProbeForged { usk: s.u16(), kind: s.below(7) as u8, keep: s.bool() },
+        _ => Op::ProbeForged { usk: s.u16(), kind: s.below(9) as u8, keep: s.bool() },
     })
 }
 
